@@ -18,7 +18,10 @@ RULE = ('A real Client (AsyncClient) is connected to a real Server '
         'handler return values, with and without acknowledgement, bursts '
         'of consecutive messages, and answers kept in flight (in order) '
         'while the next burst is sent, so that acknowledgements overtake '
-        'later emits. Oracle: the peer handler for that event and '
+        'later emits; asyncio handlers alternate between plain and '
+        'coroutine functions, and the packets in flight may be received '
+        'back to back (one polling payload) before any background task '
+        'runs. Oracle: the peer handler for that event and '
         'namespace is invoked exactly once with args == the documented '
         'packing of the payload (type-strict), in send order per direction; '
         'callback args / call() result follow the same rule applied to the '
@@ -65,6 +68,12 @@ def strategy(tier):
         'aio': st.booleans(),
         'serializer': st.sampled_from(['default', 'msgpack']),
         'framing': st.sampled_from(['binary', 'b64']),
+        # asyncio: every second registered handler is a plain function
+        # instead of a coroutine function
+        'mixed': st.booleans(),
+        # packets in flight are received back to back, handlers' background
+        # tasks run afterwards (one polling payload)
+        'batch': st.booleans(),
         'nss': st.lists(st.integers(0, 3), min_size=1, max_size=3,
                         unique=True),
         'bursts': st.lists(burst, min_size=1, max_size=8 if big else 4)})
@@ -82,7 +91,7 @@ def _interesting(v):
 
 def check_case(case):
     ln = Link(aio=case['aio'], serializer=case['serializer'],
-              framing=case['framing'])
+              framing=case['framing'], batch=case.get('batch', False))
     try:
         return _run(case, ln)
     finally:
@@ -103,8 +112,14 @@ def _run(case, ln):
             raise RuntimeError('application handler fault')
         return r
 
+    nreg = {'s': 0, 'c': 0}
+
+    def plain(side):
+        nreg[side] += 1
+        return case.get('mixed') and nreg[side] % 2 == 0
+
     def mk_server(ns, ev):
-        if aio:
+        if aio and not plain('s'):
             async def h(sid, *args):
                 slog.append((ns, ev, sid, args))
                 return next_ret('c2s', ns, ev)
@@ -115,7 +130,7 @@ def _run(case, ln):
         return h
 
     def mk_client(ns, ev):
-        if aio:
+        if aio and not plain('c'):
             async def h(*args):
                 clog.append((ns, ev, args))
                 return next_ret('s2c', ns, ev)
